@@ -95,3 +95,23 @@ Proof.
   - intros s X cs Hin Ho Hp. destruct (Hs s X cs Hin Ho Hp) as [cs' [H1 _]].
     apply in_map_iff. exists (X, cs'). split; [reflexivity | exact H1].
 Qed.
+
+(* ---- which Recv errors end a stream cleanly ---- *)
+Lemma only_eof_ends_stream w : recv_eos_lazy false w = false /\ recv_eos_eager false w = false.
+Proof. split; reflexivity. Qed.
+
+Lemma effective_id lazy wrl w (s : script) : effective lazy wrl w s = s.
+Proof.
+  unfold effective. destruct (send s); [reflexivity|].
+  destruct (only_eof_ends_stream w) as [A B]. rewrite A, B. destruct (lazy && _); reflexivity.
+Qed.
+
+Lemma effective_all_id lazy wrl ws (ss : list script) : effective_all lazy wrl ws ss = ss.
+Proof.
+  revert ws. induction ss as [|s r IH]; intros ws; [reflexivity|]. cbn [effective_all]. rewrite effective_id, IH. reflexivity.
+Qed.
+
+Lemma only_io_eof_ends_a_stream lazy wrl wraps (scripts : list script) :
+  effective_all lazy wrl wraps scripts = scripts
+  /\ forall w, recv_eos_lazy false w = false /\ recv_eos_eager false w = false.
+Proof. split; [apply effective_all_id | exact only_eof_ends_stream]. Qed.
